@@ -494,6 +494,12 @@ def _strat_apply_unitary_from_decompose(val: Any, args: ApplyUnitaryArgs) -> np.
     all_qubits = frozenset([q for op in operations for q in op.qubits])
     ancilla = tuple(sorted(all_qubits.difference(qubits)))
     if not len(ancilla):
+        # apply_unitaries works in place and does not roll back: do not start unless every
+        # operation of the decomposition is unitary, otherwise the caller's tensor is corrupted.
+        from cirq.protocols.has_unitary_protocol import has_unitary
+
+        if not all(has_unitary(op) for op in operations):
+            return None
         return apply_unitaries(operations, qubits, args, None)
     ordered_qubits = ancilla + tuple(qubits)
     all_qid_shapes = qid_shape_protocol.qid_shape(ordered_qubits)
